@@ -838,16 +838,17 @@ Proof.
       destruct (data_matches_inv _ _ _ _ _ _ DM) as (Hs & Hb).
       rewrite Hs, St, eqb_reflx. inversion Fc as [|? ? Fp Ft]; subst.
       split; unfold SItx, tx_in_flight in *; simpl; rewrite ?Ec, ?Eq in *; simpl in *.
-      * rewrite <- St, eqb_reflx. repeat split; auto; try discriminate. congruence.
+      * rewrite <- St, eqb_reflx. repeat split; auto; try discriminate.
       * assert (X : Bool.eqb (negb (m_sn m)) (m_sn m) = false) by (destruct (m_sn m); reflexivity).
         rewrite X. repeat split; auto; try discriminate.
-        rewrite filter_app_one, Hb, Fp, Ca, app_nil_r. reflexivity.
+        rewrite filter_app_one, Fp, Ca, app_nil_r. reflexivity.
   - (* the empty PDU in flight again *)
     destruct (empty_matches (m_o m) se sz h b) eqn:EM; inversion H; subst; clear H.
     destruct (empty_matches_inv _ _ _ _ _ EM) as (Hs & Hb). subst b.
-    split; [unfold SItx, tx_in_flight; rewrite Ec; auto 10|].
-    destruct (Bool.eqb (has h sn_flag) (c_nesn c)); [|unfold SItx, tx_in_flight; rewrite Ec; auto 10].
-    unfold SItx, tx_in_flight in *; simpl; rewrite ?Ec in *. repeat split; auto.
+    unfold tx_in_flight in Ca. rewrite Ec in Ca.
+    split; [unfold SItx, tx_in_flight; rewrite Ec; repeat split; auto|].
+    destruct (Bool.eqb (has h sn_flag) (c_nesn c)); [|unfold SItx, tx_in_flight; rewrite Ec; repeat split; auto].
+    unfold SItx, tx_in_flight; simpl; rewrite Ec. repeat split; auto.
     rewrite filter_app_one, counted_empty, app_nil_r. exact Ca.
   - (* the data PDU in flight again *)
     destruct St as [St Ne].
@@ -855,13 +856,15 @@ Proof.
     destruct (data_matches (m_o m) p sd sz h b) eqn:DM; inversion H; subst; clear H.
     destruct (data_matches_inv _ _ _ _ _ _ DM) as (Hs & Hb).
     inversion Fc as [|? ? Fp Ft]; subst.
-    split; [unfold SItx, tx_in_flight; rewrite Ec, Eq; auto 10|].
-    destruct (Bool.eqb (has h sn_flag) (c_nesn c)) eqn:X; [|unfold SItx, tx_in_flight; rewrite Ec, Eq; auto 10].
+    unfold tx_in_flight in Ca. rewrite Ec, Eq in Ca. simpl in Ca.
+    split; [unfold SItx, tx_in_flight; rewrite Ec, Eq; simpl; repeat split; auto; discriminate|].
+    destruct (Bool.eqb (has h sn_flag) (c_nesn c)) eqn:X;
+      [|unfold SItx, tx_in_flight; rewrite Ec, Eq; simpl; repeat split; auto; discriminate].
     apply eqb_prop in X.
-    unfold SItx, tx_in_flight in *; simpl; rewrite ?Ec, ?Eq in *. simpl in *.
+    unfold SItx, tx_in_flight; simpl; rewrite Ec, Eq. simpl.
     rewrite <- X in Ca. rewrite eqb_reflx in Ca. rewrite <- X.
     assert (Y : Bool.eqb (negb (has h sn_flag)) (has h sn_flag) = false) by (destruct (has h sn_flag); reflexivity).
-    rewrite Y. repeat split; auto.
+    rewrite Y. repeat split; auto; try discriminate.
     rewrite filter_app_one, Fp, Ca, app_nil_r. reflexivity.
 Qed.
 
